@@ -31,10 +31,10 @@ TIE = ("S: every call of the real process_peering_event (direct calls on generat
 LEVEL_TEXT = ("Lean theorems for all status contents, all operator sets and all label lists (starts, keep-alives, graceful exits, "
               "kills, deliveries, passing time, foreign writes): paused_iff (+_step), exactly_top, at_most_one_active, "
               "equal_priority_both_paused, failover_exit, failover_kill (+ wake_at_deadline: sleep-to-deadline then self-touch), "
-              "renewal (lifetime >= 2, 2*latency < min(5, lifetime-1) s; the lifetime = 1 corner is renewal_lifetime_one, a proved "
-              "counterexample replayed on the real code), withdraw_on_exit (the exit step itself) with late_self_touch_witness (the "
-              "sleeping call of an exited operator touches the record back: finding F2, replayed) and withdrawn_stays_partial "
-              "(permanent when no call was sleeping), dead_cleaned (+_step). The transition system delivers the current status "
+              "renewal (lifetime >= 1, 2*latency < min(5, lifetime-1) s resp. the spare half second for lifetime 1: "
+              "renewal_lifetime_one, repaired F1), withdraw_on_exit + exit_interrupts_sleep + withdrawn_stays (a graceful exit "
+              "ends the sleeping call, the record never comes back: repaired F2), dead_cleaned (+_step; the own record is "
+              "never cleaned: own_record_not_cleaned, repaired F5a). The transition system delivers the current status "
               "atomically: stale views (F4) and same-identity restarts (F5) are outside it. The model is hand-written; its "
               "decision function is compared with the real process_peering_event per call, keep-alive arithmetic exhaustively. "
               "The pause *effects* (streams closed, daemons stopped, nothing handled beyond queued events, nothing handled twice) "
@@ -42,14 +42,15 @@ LEVEL_TEXT = ("Lean theorems for all status contents, all operator sets and all 
 THEOREMS = [("Kopf.Props.C13", "Kopf.C13." + n) for n in [
     "paused_iff", "turned_spec", "paused_iff_step", "exactly_top", "at_most_one_active", "equal_priority_both_paused",
     "failover_exit", "failover_kill", "wake_at_deadline", "expire_then_dead", "keepalive_period", "renewal",
-    "renewal_lifetime_one", "lifetime_zero_withdraws", "keepalive_writes", "withdraw_on_exit", "late_self_touch_witness",
-    "withdrawn_stays_partial", "dead_cleaned", "dead_cleaned_step"]]
+    "keepalive_period_one", "renewal_lifetime_one", "lifetime_zero_withdraws", "keepalive_writes", "withdraw_on_exit",
+    "exit_interrupts_sleep", "withdrawn_stays_from", "withdrawn_stays", "dead_cleaned", "own_record_not_cleaned",
+    "dead_cleaned_step"]]
 RULE = ("(1) direct calls: status of 0-5 records over a small identity pool (own record in/out), priority around the own one / "
         "missing / garbled, lifetime ints incl. 0,1,negative / numeric strings / garbage / missing, lastseen placed exactly on the "
         "deadline and +-1 tick / far past / future / missing / null / unparsable / naive & Z formats, unknown keys, non-mapping "
         "entries, non-mapping status, foreign object name; toggle on/off/none, API latency 0..64 ticks inside the call, sleep "
         "interrupted or not. (2) keepalive: lifetimes 0..130 x jitter 5..10 exhaustively, touch payloads. (3) histories: 2-4 "
-        "operators with distinct (20%: clashing) priorities, lifetimes 2..60 s, scripted starts/stops/kills/restarts, edits of a "
+        "operators with distinct (20%: clashing) priorities, lifetimes 1..60 s, scripted starts/stops/kills/restarts, edits of a "
         "handled object with create/update handlers and a daemon, foreign records (dead, live high/low, unknown fields, missing "
         "lifetime), per-operator peering-event delivery delays (12%: later than some keep-alive margin = the late regime, judged "
         "only by the checks that do not presume timely delivery), 25% restarts under the same identity. A case is one "
@@ -64,7 +65,7 @@ TRUSTED = ["harness/sim (virtual-time loop, fake API server incl. merge-patch of
 ASSUMPTIONS = ["one virtual clock shared by all operators (no clock skew between operators)",
                "floats in peering records are not generated (the Lean JSON has integers only)",
                "a record without `lastseen` is read as 'just seen' (what the code does); the oracle treats it as live",
-               "histories use lifetimes >= 2 s (lifetime 1 is the separate witness F1) and API latency 1/64 s",
+               "histories use lifetimes >= 1 s and API latency 1/64 s",
                "the transition system hands an operator the CURRENT status atomically; late views (F4), same-identity restarts (F5) "
                "and the daemon killer (F3) are outside the Lean model and covered by the simulation oracle only"]
 
@@ -174,7 +175,8 @@ def expected_from_statement(status: Any, me: str, my_prio: int, now_s: float) ->
             seen = p
         live = seen + life > now_s
         if not live:
-            dead.append(ident)
+            if ident != me:           # "expired records of OTHERS are cleaned up"
+                dead.append(ident)
         elif ident != me and prio >= my_prio:
             blocked = True
     return {"paused": blocked, "dead": dead}
@@ -239,7 +241,7 @@ def model_view(out: Any, interrupted: bool) -> Any:
 # =================================================================================================
 # 3. histories
 PRIOS = [0, 5, 10, 50, 100, 1000, -5]
-LIFES = [2, 3, 4, 6, 8, 10, 12, 20, 60]
+LIFES = [1, 2, 2, 3, 4, 6, 8, 10, 12, 20, 60]
 
 
 def _dy(rng: Any, lo: float, hi: float) -> float:
@@ -320,8 +322,8 @@ def gen_history(rng: Any, seed: int) -> dict:
     if rng.random() < 0.12:
         # the late-delivery regime: some operator sees peering events later than another one's keep-alive margin
         victim, slow = rng.sample(names, 2)
-        ops[victim]["lifetime"] = rng.choice([2, 3])
-        delivery[slow] = float(min(5, ops[victim]["lifetime"] - 1))
+        ops[victim]["lifetime"] = rng.choice([1, 2, 3])
+        delivery[slow] = float(max(1, min(5, ops[victim]["lifetime"] - 1)))
     return {"seed": seed, "peering": rng.choice(["default", "verif-peers"]), "ops": ops, "pre_status": pre,
             "sticky_identities": rng.random() < 0.25,
             "objects": [{"name": "a", "body": {"spec": {"x": 0}}}], "timeline": sorted(tl, key=lambda e: e[0]),
@@ -340,7 +342,7 @@ class Hist:
         self.incs = tr["incs"]
         self.dmax = max([0.0] + [float(v) for v in (sc.get("delivery") or {}).values()])
         self.W = self.dmax + 1.0
-        margins = [min(5, int(o.get("lifetime", 60)) - 1) for o in sc["ops"].values()]
+        margins = [min(5, int(o.get("lifetime", 60)) - 1) if int(o.get("lifetime", 60)) >= 2 else 0.5 for o in sc["ops"].values()]
         # peering events may arrive later than the keep-alive margin of some operator: stale views look dead
         self.late = self.dmax + 4 * LAT >= min(margins)
         self.t_fail: dict[int, float] = {}
@@ -521,7 +523,7 @@ def oracle_history(ctx: Ctx, sc: dict, tr: dict, full: bool = False) -> dict:
 
     # ---- (C) renewal: a running operator's record is there and fresh all the time ---------------------------------
     for i in incs:
-        if i["lifetime"] < 2 and not full:
+        if i["lifetime"] < 1:
             continue
         t_to = H.end_of(i)
         first = None
@@ -555,7 +557,10 @@ def oracle_history(ctx: Ctx, sc: dict, tr: dict, full: bool = False) -> dict:
                                     f"{by}: the clean() was aimed at the dead record the previous process left under the same identity, "
                                     f"and landed after the first touch of the new process",
                                     {"scenario": sc, "inc": i["inc"], "t": h["t"]},
-                                    {"site": "peering.clean", "shape": "fresh record of a restarted operator deleted by a clean() aimed at the stale record of the same identity"})
+                                    {"site": "peering.clean", "shape": (
+                                        "fresh record of a restarted operator deleted by its OWN clean() of the stale record of the same identity"
+                                        if by == "itself" else
+                                        "fresh record of a restarted operator deleted by a PEER's clean() aimed at the stale record of the same identity")})
                 elif killer and prev is not None and H.live(prev, h["t"]):
                     ctx.oracle_fail(f"the fresh record of running operator {i['name']} (lastseen {prev.get('lastseen')}, lifetime "
                                     f"{prev.get('lifetime')}) was deleted at {h['t']} by {'itself' if killer[0]['who'] == i['who'] else killer[0]['who']}"
@@ -614,8 +619,8 @@ def oracle_history(ctx: Ctx, sc: dict, tr: dict, full: bool = False) -> dict:
             # who runs (with its peering toggle made) throughout [t_dead, t_dead + bound]?
             best = None
             for i in incs:
-                if i["inc"] not in H.made or i["lifetime"] < 1:
-                    continue
+                if i["inc"] not in H.made or i["lifetime"] < 1 or i["identity"] == ident:
+                    continue            # nobody cleans its own record
                 bound = max(1, i["lifetime"] - 5) + 4 * LAT + H.W
                 t_to = H.end_of(i)
                 if H.made[i["inc"]] + 1.0 <= t_dead and t_dead + bound < t_to:
@@ -819,14 +824,14 @@ def check_keepalive(ctx: Ctx) -> None:
             continue
         s = r["sleeps"][0]
         # oracle, from the statement: renewed before it expires; withdrawn (lifetime=0) on every way out
-        if L >= 2 and not (1 <= s < L):
+        if L >= 1 and not (0 < s < L):
             ctx.oracle_fail(f"keepalive with lifetime {L} s sleeps {s} s between touches: the record expires before it is renewed",
                             {"keepalive": r}, {"site": "peering.keepalive", "shape": "period >= lifetime"})
         if r["touches"] != [None, 0]:
             ctx.oracle_fail(f"keepalive touched with lifetimes {r['touches']} (expected one regular touch, then lifetime=0 on exit)",
                             {"keepalive": r}, {"site": "peering.keepalive", "shape": "no withdrawal on exit"})
-        reqs.append(["C13.kasleep", L, j])
-        impls.append(s)
+        reqs.append(["C13.kasleep", TPS, L, j])
+        impls.append(sim_c13.ticks(s))
         wh.append({"keepalive": r})
     for r in res["touch"]:
         eff = r["lifetime"] if r["arg"] is None else r["arg"]
@@ -884,8 +889,8 @@ def check_histories(ctx: Ctx, scenarios: list[dict], reqs: list, impls: list, wh
         for kk in tr["ka"]:
             if kk["lifetime"] is None:
                 continue
-            ka_reqs.append(["C13.kasleep", kk["lifetime"], kk["jitter"]])
-            ka_impls.append(kk["sleep"])
+            ka_reqs.append(["C13.kasleep", TPS, kk["lifetime"], kk["jitter"]])
+            ka_impls.append(sim_c13.ticks(kk["sleep"]))
             ka_where.append({"scenario": sc, "keepalive": kk})
             ctx.case(key={"ka-sim": [kk["lifetime"], kk["jitter"]]}, nontrivial=True)
 
